@@ -4,6 +4,7 @@ import json
 import math
 import os
 
+from .. import fold
 from ..core import AnalysisError, VERIF
 from ..grid import FnGrid
 from ..src import call_name, stmt_key, unparse
@@ -186,6 +187,7 @@ def run(ctx, repo):
     ctx.rule('R5', 'the unknown-pair guard (key not in table -> None) dominates every table subscript and every may-raise call')
     ctx.rule('R6', 'age path: no undefined names; the factor column selected by find_age is never the text column')
     ctx.rule('R7', 'hurdles remap equals {(F,80H)->100H, (M,80H)->110H, (M,100H)->110H}')
+    ctx.rule('R10', 'every hurdles event of the scoring table is mapped by the masters grader to a row of its table (mapping prelude folded)')
     ctx.rule('R9', 'the kind dispatch of score() accepts every spelling the (upper-casing) key lookup accepts')
     ctx.rule('R8', 'no history: the shared coefficient rows are never changed in place (the ESAA option affects only its own call); memos are transparent')
 
@@ -440,6 +442,7 @@ def run(ctx, repo):
     if not undefined:
         ctx.ok('R6', 'no undefined names in athlon_score.py / agegrader.py')
     check_text_column(ctx, repo)
+    hurdles_mapping_rule(ctx, repo)
     from .c14 import age_clamps
     age_clamps(ctx, repo, repo.module(AGE), 'R6')
 
@@ -458,6 +461,15 @@ def run(ctx, repo):
                     for ev in evs:
                         remap['%s-%s' % (gg, ev)] = asg[0].value.value
             cur = cur.orelse[0] if len(cur.orelse) == 1 else None
+    # a remapped code must not also be a row of the table: score() would never read that row, while performance() - which looks the
+    # code up as given - inverts it (and a caller who sees the row expects it to be used)
+    tkeys = {'%s-%s' % (r['gender'], r['event_code']) for r in repo.const(ATH, '_scoring_table') if isinstance(r, dict)}
+    shadowed = sorted(k for k in remap if k in tkeys)
+    if shadowed:
+        ctx.finding('R7', '%s::_scoring_table::rows shadowed by the hurdles remap' % ATH, ATH, score.lineno,
+                    'the table has rows for %s, but score() rewrites these codes to %s before its lookup: the rows are never scored, while '
+                    'performance() reads them directly, so the two directions use different coefficients' % (
+                        shadowed, sorted({remap[k] for k in shadowed})), shadowed[0])
     if remap == SP['hurdles_remap']:
         ctx.ok('R7', 'hurdles remap = %s' % remap)
     else:
@@ -504,6 +516,59 @@ def undefined_names(repo, rels):
                 walk(c, path + [c.get_name()])
         walk(st, [])
     return out
+
+
+def hurdles_mapping_rule(ctx, repo):
+    """R10: every hurdles event of the scoring table is graded from a row the masters table has.  The event-mapping prelude of
+    AthlonsAgeGrader.calculate_factor (statements up to the first one that needs the data) is folded for each hurdles code of the scoring
+    table - a finite complete domain - with `self` seen through the class-level constants."""
+    mod = repo.module(AGE)
+    cf = mod.func('AthlonsAgeGrader.calculate_factor')
+    cls = mod.cls('AthlonsAgeGrader')
+    attrs = {}
+    for base in (mod.cls('AgeGrader'), cls):
+        for st in base.body:
+            if isinstance(st, ast.Assign) and len(st.targets) == 1 and isinstance(st.targets[0], ast.Name):
+                try:
+                    attrs[st.targets[0].id] = fold.Folder().expr(st.value, {})
+                except Exception:
+                    pass
+    evp = cf.args.args[3].arg
+    data = repo.json(DATA)
+    rows = {g: {r[0] for r in data[g]} for g in ('m', 'f')}
+    events = sorted({(r['gender'], r['event_code']) for r in repo.const(ATH, '_scoring_table') if isinstance(r, dict)
+                     and str(r.get('event_code', '')).upper().endswith('H')})
+    if len(events) < 6:
+        raise AnalysisError('hurdles rows of the scoring table not found')
+    bad = []
+    for g, ev in events:
+        env = {'self': fold.ObjConst(attrs), evp: ev, cf.args.args[1].arg: g, cf.args.args[2].arg: 40}
+        F = fold.Folder()
+        outcome = None
+        for st in cf.body:
+            if isinstance(st, ast.Expr) and isinstance(st.value, ast.Constant):
+                continue
+            try:
+                F.stmt(st, env)
+            except fold._Raise:
+                outcome = '<raises>'
+                break
+            except (fold.Unfoldable, fold._Return):
+                break
+            except Exception as e:
+                outcome = '<raises %s>' % type(e).__name__
+                break
+        mapped = outcome or env.get(evp)
+        if mapped not in rows[g.lower()]:
+            bad.append((g, ev, mapped))
+    ctx.count('hurdles events of the scoring table folded through the masters event mapping', len(events))
+    if bad:
+        g, ev, mapped = bad[0]
+        ctx.finding('R10', '%s::AthlonsAgeGrader.calculate_factor::hurdles events without a masters row' % AGE, AGE, cf.lineno,
+                    'the scored event %s %s is mapped to %r by the masters grader, which is not a row of %s (%d hurdles events in all): score() with '
+                    'an age raises for it instead of applying the short / long hurdles factor' % (g, ev, mapped, DATA, len(bad)), '%s %s' % (g, ev))
+    else:
+        ctx.ok('R10', 'all %d hurdles events of the scoring table map to a row of the masters table' % len(events))
 
 
 def check_text_column(ctx, repo):
